@@ -101,6 +101,16 @@ void PoolWakeState::wakeRange(int32_t count) {
 }
 
 int32_t PoolWakeState::claimAndWakeOne() {
+  int32_t threadIdx = claimOne();
+  if (threadIdx >= 0) {
+    // Wake one thread from this group's shared waiter (the claimed
+    // thread's bit is cleared so other callers see one fewer sleeper).
+    wakeClaimed(threadIdx);
+  }
+  return threadIdx;
+}
+
+int32_t PoolWakeState::claimOne() {
   if (totalSleeping_.load(std::memory_order_relaxed) <= 0) {
     return -1;
   }
@@ -114,9 +124,6 @@ int32_t PoolWakeState::claimAndWakeOne() {
       int bit = detail::countTrailingZeros(mask);
       int32_t threadIdx = g * groupSize_ + bit;
       if (threadIdx < numThreads_ && tryClaimSleeper(threadIdx)) {
-        // Wake one thread from this group's shared waiter (the claimed
-        // thread's bit is cleared so other callers see one fewer sleeper).
-        waiterFor(threadIdx).bumpAndWake();
         nextWakeGroup_.store(nextGroupTable_[static_cast<size_t>(g)], std::memory_order_relaxed);
         return threadIdx;
       }
